@@ -520,9 +520,96 @@ func (r *Reader) readReflect(v interface{}) error {
 		rv.Set(tmp)
 		return nil
 
+	case reflect.Int8, reflect.Int16, reflect.Int32, reflect.Int64,
+		reflect.Uint8, reflect.Uint16, reflect.Uint32, reflect.Uint64,
+		reflect.Float32, reflect.Float64, reflect.Bool, reflect.String:
+		// 命名的基础类型（type Status uint8 等）：Writer.writeBasicKind 按 Kind 写入，这里按 Kind 读回
+		return r.readBasicKind(rv)
+
 	default:
 		return fmt.Errorf("unsupported type for reading: %v", rv.Type())
 	}
+}
+
+// readBasicKind 按 reflect.Kind 读取基础类型的值（与 Writer.writeBasicKind 对应）；读取失败时不修改目标
+func (r *Reader) readBasicKind(rv reflect.Value) error {
+	switch rv.Kind() {
+	case reflect.Int8:
+		v, err := r.ReadInt8()
+		if err != nil {
+			return err
+		}
+		rv.SetInt(int64(v))
+	case reflect.Int16:
+		v, err := r.ReadInt16()
+		if err != nil {
+			return err
+		}
+		rv.SetInt(int64(v))
+	case reflect.Int32:
+		v, err := r.ReadInt32()
+		if err != nil {
+			return err
+		}
+		rv.SetInt(int64(v))
+	case reflect.Int64:
+		v, err := r.ReadInt64()
+		if err != nil {
+			return err
+		}
+		rv.SetInt(v)
+	case reflect.Uint8:
+		v, err := r.ReadUint8()
+		if err != nil {
+			return err
+		}
+		rv.SetUint(uint64(v))
+	case reflect.Uint16:
+		v, err := r.ReadUint16()
+		if err != nil {
+			return err
+		}
+		rv.SetUint(uint64(v))
+	case reflect.Uint32:
+		v, err := r.ReadUint32()
+		if err != nil {
+			return err
+		}
+		rv.SetUint(uint64(v))
+	case reflect.Uint64:
+		v, err := r.ReadUint64()
+		if err != nil {
+			return err
+		}
+		rv.SetUint(v)
+	case reflect.Float32:
+		v, err := r.ReadFloat32()
+		if err != nil {
+			return err
+		}
+		rv.SetFloat(float64(v))
+	case reflect.Float64:
+		v, err := r.ReadFloat64()
+		if err != nil {
+			return err
+		}
+		rv.SetFloat(v)
+	case reflect.Bool:
+		v, err := r.ReadBool()
+		if err != nil {
+			return err
+		}
+		rv.SetBool(v)
+	case reflect.String:
+		v, err := r.ReadString()
+		if err != nil {
+			return err
+		}
+		rv.SetString(v)
+	default:
+		return fmt.Errorf("unsupported type for reading: %v", rv.Type())
+	}
+	return nil
 }
 
 // ReadInto 一次性读取多个值
